@@ -1,0 +1,37 @@
+//go:build verif
+
+package transactions
+
+// Machine-checked contracts, read by the govc verifier under /verif. Comment-only.
+// C07: the set of pending transactions is a map keyed by (remote address, transaction id); every operation
+// touches exactly the entry it names.
+
+//@ func (*dht/transactions.Dispatcher[S]).Have
+//@   requires nonnil: me != nil
+//@   ensures membership: result == (key in me.txns)
+
+//@ func (*dht/transactions.Dispatcher[S]).NumActive
+//@   requires nonnil: me != nil
+//@   ensures size: result == len(me.txns)
+
+//@ func (*dht/transactions.Dispatcher[S]).Pop
+//@   requires nonnil: me != nil
+//@   requires present: key in me.txns
+//@   option records popped
+//@   modifies me.txns
+//@   ensures the-entry: result == old(me.txns[key])
+//@   ensures removed: !(key in me.txns)
+//@   ensures others-untouched: forall k Key :: k != key ==> (k in me.txns) == old(k in me.txns) && me.txns[k] == old(me.txns[k])
+
+//@ func (*dht/transactions.Dispatcher[S]).Add
+//@   requires nonnil: me != nil
+//@   requires absent: !(key in me.txns)
+//@   modifies me.txns, *me
+//@   ensures added: (key in me.txns) && me.txns[key] == state
+//@   ensures others-untouched: forall k Key :: k != key ==> (k in me.txns) == old(k in me.txns) && me.txns[k] == old(me.txns[k])
+
+//@ func (*dht/transactions.Dispatcher[S]).Delete
+//@   requires nonnil: me != nil
+//@   modifies me.txns
+//@   ensures removed: !(key in me.txns) && result == old(key in me.txns)
+//@   ensures others-untouched: forall k Key :: k != key ==> (k in me.txns) == old(k in me.txns) && me.txns[k] == old(me.txns[k])
